@@ -64,14 +64,18 @@ def gen_format():
         flags.append((_lit(lit), FLAG[f]))
     # ---- length modifiers
     body = _fn(text, "try_parse_length_modifier")
-    cond = one(r"while ((?:bytes\[idx\] == b'.'(?: \|\| )?)+) \{", body, "length modifier loop")
+    # a single optional modifier (`if`, not the former `while` loop)
+    cond = one(r"\n\tif ((?:bytes\[idx\] == b'.'(?: \|\| )?)+) \{", body, "length modifier test (single `if`)")
+    if re.search(r"\bwhile\b", body):
+        raise TranslateError("length modifier: unexpected loop")
     lms = [_lit(t.split("==")[1]) for t in cond.split("||")]
     # ---- width parser shape: u16 accumulator, star, '.'
     body = _fn(text, "try_parse_field_width")
     one(r"let mut out: u16 = 0;", body, "width accumulator type")
     one(r"if bytes\[0\] == b'\*' \{", body, "star width")
     one(r"\(bytes\[digits\] as char\)\.to_digit\(10\)", body, "width digit test")
-    one(r"out \*= 10;\s*out \+= digit as u16;", body, "width accumulation")
+    one(r"out = out\s*\.checked_mul\(10\)\s*\.and_then\(\|out\| out\.checked_add\(digit as u16\)\)\s*"
+        r"\.ok_or\(FieldWidthTooLarge\)\?;", body, "checked width accumulation")
     one(r"if bytes\[0\] == b'\.' \{", _fn(text, "try_parse_precision"), "precision dot")
     kbody = _fn(text, "try_parse_mapping_key")
     one(r"if bytes\[0\] == b'\(' \{", kbody, "mapping key open")
@@ -83,16 +87,26 @@ def gen_format():
     dec = one(r"out, neg, iv, padding, precision, blank, sign, (\d+), \"([^\"]*)\", (true|false), (true|false),",
               _fn(text, "render_decimal"), "render_decimal call")
     octb = _fn(text, "render_octal")
-    octal = one(r"sign,\s*(\d+),\s*if alt && iv != 0\.0 \{ \"([^\"]*)\" \} else \{ \"\" \},\s*(true|false),\s*(true|false),",
+    octal = one(r"sign,\s*(\d+),\s*if alt && iv >= 1\.0 \{ \"([^\"]*)\" \} else \{ \"\" \},\s*(true|false),\s*(true|false),",
                 octb, "render_octal call")
     hexb = _fn(text, "render_hexadecimal")
     hexa = one(r"sign,\s*(\d+),\s*match \(alt, caps\) \{\s*\(true, true\) => \"([^\"]*)\",\s*\(true, false\) => "
                r"\"([^\"]*)\",\s*\(false, _\) => \"\",\s*\},\s*(true|false),\s*caps,", hexb, "render_hexadecimal call")
     one(r"iv < 0\.0,\s*iv\.abs\(\),", hexb, "render_hexadecimal sign/magnitude")
+    ri = _fn(text, "render_integer")
+    one(r"if iv != 0 \|\| !prefix_in_padding \{\s*out\.push_str\(zero_prefix\);", ri, "prefix emission rule")
+    one(r"let iv = iv\.floor\(\) as i64;", ri, "render_integer i64 cast")
+    rf = _fn(text, "render_float")
+    one(r"padding = padding\.saturating_sub\(precision\.saturating_add\(dot_size\)\);", rf, "float padding")
     # ---- defaults
     fc = _fn(text, "format_code")
     d = one(r"precision\.map_or\(\((\d+), (\d+)\), \|v\| \(v, v\)\)", fc, "default precisions")
     one(r"let padding = if clfags\.zero && !clfags\.left \{\s*width\s*\} else \{\s*0\s*\};", fc, "zero padding rule")
+    one(r"render_hexadecimal\(\s*&mut tmp_out,\s*value\.floor\(\),", fc, "%x floors its argument")
+    one(r"let fpprec = fpprec\.max\(1\);", fc, "%g precision 0 taken as 1")
+    one(r"if n <= -1\.0 \{\s*bail!", fc, "%c negative guard")
+    one(r"let padding = width\.saturating_sub\(u16::try_from\(tmp_out\.chars\(\)\.count\(\)\)\.unwrap_or\(u16::MAX\)\);",
+        fc, "final padding counts code points")
     sci = _fn(text, "render_float_sci")
     ew = one(r"exponent\.abs\(\),\s*(\d+),\s*0,\s*false,\s*true,", sci, "exponent field")
 
